@@ -221,10 +221,11 @@ func (r *vcReplayer) viol(prop, key, desc string, extra vhRec) bool {
 //	stored-lost      an accepted, unexpired bundle is gone                          C05 (C14 for same-instant submissions)
 //	stored-kept      a bundle that had to be refused (hop limit, lifetime, block)    C06; a DTLSR unicast not released: C20
 //	pending          not marked for retry                                            C05
-//	sends-missing    destination connected / epidemic spread                         C05; PRoPHET gate: C19; DTLSR route: C20
+//	sends-missing    destination connected / epidemic spread / DTLSR broadcast       C05; C20 (broadcast); otherwise nobody's
 //	sends-refused    transmitted although it had to be refused                      C06
-//	sends-extra      offered to a peer the algorithm must not choose                 C13; spray budget: C18; gate: C19; route: C20
-//	routing-memory   wrong note of who has the bundle                                C05 + C13 (spray: C13 + C18)
+//	sends-extra-served  offered to the previous node or to a peer that has it       C13 (+ C18 spray, + C20 broadcast)
+//	sends-extra      offered to a peer the algorithm's rule excludes                 C18 (budget), C19 (gate), C20 (table), else C13
+//	memory-extra / memory-missing   wrong note of who has the bundle               as the missing / repeated transmission it leads to
 //	deliveries       handed to the local agent wrongly / not at all                  C07 + C15
 //	deadlock         the node stops processing events                                C05 + C07
 func (r *vcReplayer) rel(kind, b string) string {
@@ -253,34 +254,46 @@ func (r *vcReplayer) rel(kind, b string) string {
 	case "sends-missing-direct":
 		ps = []string{"C05"}
 	case "sends-missing":
+		// only two statements demand a transmission: C05 (epidemic: every connected peer that lacks the bundle) and C20 (a DTLSR
+		// broadcast goes once to every peer); PRoPHET's gate, spray's budget and DTLSR's unicast rule only forbid
 		switch {
 		case algo == "epidemic" || algo == "mule":
 			ps = []string{"C05"}
+		case algo == "dtlsr" && a.Dst == "bcast":
+			ps = []string{"C20"}
+		}
+	case "sends-refused":
+		ps = []string{"C06"}
+	case "sends-extra-served": // offered to the node it came from, or again to a peer that has it
+		ps = []string{"C13"}
+		if spray {
+			ps = append(ps, "C18")
+		}
+		if algo == "dtlsr" && a.Dst == "bcast" {
+			ps = append(ps, "C20")
+		}
+	case "sends-extra": // offered to a peer the algorithm's own rule excludes
+		switch {
+		case spray:
+			ps = []string{"C18"}
 		case algo == "prophet":
 			ps = []string{"C19"}
 		case algo == "dtlsr":
 			ps = []string{"C20"}
-			if a.Dst == "bcast" {
-				ps = append(ps, "C05")
-			}
+		default:
+			ps = []string{"C13"}
 		}
-	case "sends-refused":
-		ps = []string{"C06"}
-	case "sends-extra":
-		ps = []string{"C13"}
+	case "memory-extra": // remembers a peer as served that was not: that peer will be passed over
 		switch {
-		case spray:
-			ps = append(ps, "C18")
-		case algo == "prophet":
-			ps = append(ps, "C19")
-		case algo == "dtlsr":
-			ps = append(ps, "C20")
+		case algo == "epidemic" || algo == "mule":
+			ps = []string{"C05"}
+		case algo == "dtlsr" && a.Dst == "bcast":
+			ps = []string{"C20"}
 		}
-	case "routing-memory":
+	case "memory-missing": // forgot a peer that has the bundle: it will be served again
+		ps = []string{"C13"}
 		if spray {
-			ps = []string{"C13", "C18"}
-		} else {
-			ps = []string{"C05", "C13"}
+			ps = append(ps, "C18")
 		}
 	case "deliveries":
 		ps = []string{"C07", "C15"}
@@ -700,6 +713,9 @@ func (r *vcReplayer) run() string {
 			for p := range om {
 				if !em[p] {
 					extra = true
+					if p == r.cfg.Cat[b].Prev || r.okSent[b+">"+p] {
+						kind = "sends-extra-served"
+					}
 				}
 			}
 			if extra && len(expT[b]) == 0 && r.rel("stored-kept", b) == "C06" {
@@ -805,7 +821,21 @@ func (r *vcReplayer) run() string {
 			}
 			r.memChecks++
 			if vcSet(gp) != vcSet(want) {
-				if r.viol(r.rel("routing-memory", name), "core/"+s.Act+"/routing-memory", fmt.Sprintf("bundle %s: the algorithm remembers {%s} as having it, expected {%s}", name, vcSet(gp), vcSet(want)), nil) {
+				mk := "memory-extra"
+				wm := map[string]bool{}
+				for _, x := range want {
+					wm[x] = true
+				}
+				gm := map[string]bool{}
+				for _, x := range gp {
+					gm[x] = true
+				}
+				for x := range wm {
+					if !gm[x] {
+						mk = "memory-missing"
+					}
+				}
+				if r.viol(r.rel(mk, name), "core/"+s.Act+"/routing-memory", fmt.Sprintf("bundle %s: the algorithm remembers {%s} as having it, expected {%s}", name, vcSet(gp), vcSet(want)), nil) {
 					return "viol"
 				}
 			}
